@@ -94,6 +94,13 @@ check(
     "coroutine lowering of the real methods + solver-enumerated preemption schedules; forced-schedule replay on real threads",
     "DESIGN.md §3.3, §5 C19",
 )
+check(
+    "C07",
+    "NAMES AND REFERENCES ONLY - the larger half of the property (files written, modules import, classes instantiate) is NOT decided: rendering needs jinja2, which is absent. Decided, bounded-exhaustive and solver-driven (selectors): (1) every name of <= 3 symbols over a 14-symbol hostile alphabet, under every NameCase and two safe-prefix sets, renders through the real Filters.class_name/field_name/constant_name/module_name/package_name to a valid non-reserved identifier and safe_name terminates; (2) hostile name triples are placed as JSON keys (DictMapper) and as NCName-legal element/attribute/type/enumeration names of a tiny XSD (SchemaParser+SchemaMapper), the REAL ClassContainer.process() runs for every structure style x compound x unnest partition, and then no two fields of a class and no two classes of a module share a rendered name, every type reference resolves, DependenciesResolver orders every module, and only CodegenError escapes.",
+    "Trusted: import-time shims for click/jinja2/toposort (analysis half only). Outside: everything that needs rendering; DTD/WSDL/XML-sample sources; names outside the pools.",
+    "solver-driven bounded-exhaustive enumeration (selectors) of hostile names through the real naming kernel and the real analysis pipeline",
+    "DESIGN.md §5 C07",
+)
 for _p, _r in {
     "C07": "check not built yet", "C08": "check not built yet", "C09": "check not built yet", "C10": "check not built yet",
     "C11": "check not built yet", "C12": "check not built yet", "C14": "check not built yet", "C15": "check not built yet",
